@@ -327,9 +327,9 @@ func configs(c *corr.Ctx, rng *rand.Rand) []Cfg {
 		{Mask: 255, UDP: false, Mcast: false, NMedias: 2},
 		{Mask: 255, UDP: true, Mcast: true, NMedias: 2},
 		{Mask: 0, UDP: true, NMedias: 1},
-		{Mask: 1 | 4 | 8, UDP: true, NMedias: 2},      // read-only server: describe, setup, play
-		{Mask: 2 | 4 | 16, UDP: true, NMedias: 1},     // publish-only server: announce, setup, record
-		{Mask: 255 &^ 4, UDP: true, NMedias: 2},       // no OnSetup
+		{Mask: 1 | 4 | 8, UDP: true, NMedias: 2},       // read-only server: describe, setup, play
+		{Mask: 2 | 4 | 16, UDP: true, NMedias: 1},      // publish-only server: announce, setup, record
+		{Mask: 255 &^ 4, UDP: true, NMedias: 2},        // no OnSetup
 		{Mask: 255 &^ 32 &^ 64, UDP: true, NMedias: 3}, // no OnPause, no OnGetParameter
 		{Mask: 255, UDP: true, NMedias: 2, IdleMs: 30000},
 		{Mask: 255, UDP: true, NMedias: 2, IdleMs: 45500},
